@@ -202,8 +202,27 @@ func runOrder(t *testing.T, pc *world.ProducerChain, seq []tok) (res orderResult
 		}
 		errCh := make(chan error, 8)
 		ctx, cancel := context.WithCancel(context.Background())
-		go n.M.SyncLoop(ctx, errCh)
-		go n.M.DAIncluderLoop(ctx, errCh)
+		// the node runs these loops as bare goroutines: a panic below one of them ends the process; it is recovered
+		// here only to be recorded (like a halt: what arrived is P2P-only material, see Assume)
+		var pmu sync.Mutex
+		panicked := ""
+		guarded := func(name string, loop func()) {
+			go func() {
+				defer func() {
+					if e := recover(); e != nil {
+						pmu.Lock()
+						if panicked == "" {
+							panicked = fmt.Sprintf("the %s loop panicked (the node process dies): %v", name, e)
+						}
+						pmu.Unlock()
+						n.Fate.Kill()
+					}
+				}()
+				loop()
+			}()
+		}
+		guarded("sync", func() { n.M.SyncLoop(ctx, errCh) })
+		guarded("DA-includer", func() { n.M.DAIncluderLoop(ctx, errCh) })
 		synctest.Wait()
 		defer func() { cancel(); synctest.Wait() }()
 		for step, k := range seq {
@@ -223,6 +242,11 @@ func runOrder(t *testing.T, pc *world.ProducerChain, seq []tok) (res orderResult
 				res.fatal = fmt.Sprintf("after event %d (%s): %s", step, k, err.Error())
 			default:
 			}
+			pmu.Lock()
+			if panicked != "" && res.fatal == "" {
+				res.fatal = fmt.Sprintf("after event %d (%s): %s", step, k, panicked)
+			}
+			pmu.Unlock()
 			if res.fatal != "" {
 				break // the sync loop has returned; nothing changes any more
 			}
@@ -357,6 +381,7 @@ type orderStats struct {
 
 	Runs, Baselines, Perms             int64
 	Identical, HaltedOnP2PJunk, Behind int64
+	PanickedOnP2PJunk                  int64 // among HaltedOnP2PJunk: a loop panicked
 	ForgedSpecs                        map[string]int
 	// runs in which a forged data event follows the genuine header of its height while a predecessor is missing
 	SuccessorFirstRuns                  int64
@@ -372,6 +397,7 @@ func (st *orderStats) add(o *orderStats) {
 	st.Identical += o.Identical
 	st.HaltedOnP2PJunk += o.HaltedOnP2PJunk
 	st.Behind += o.Behind
+	st.PanickedOnP2PJunk += o.PanickedOnP2PJunk
 	st.SuccessorFirstRuns += o.SuccessorFirstRuns
 	st.EmptyTargetRuns += o.EmptyTargetRuns
 	st.NonEmptyTargetRuns += o.NonEmptyTargetRuns
@@ -459,6 +485,9 @@ func judgeOrder(r *vf.Run, st *orderStats, pc *world.ProducerChain, seq []tok, b
 		class = "safe:halted-on-p2p-junk"
 		st.mu.Lock()
 		st.HaltedOnP2PJunk++
+		if strings.Contains(res.fatal, "loop panicked") {
+			st.PanickedOnP2PJunk++
+		}
 		if succ && st.samplesH < 1 {
 			st.samplesH++
 			r.Sample(map[string]any{"case": desc, "result": "observation (not a violation): the sync loop stopped on the junk P2P data (" + res.fatal + "); everything executed and stored is the proposer's"})
@@ -565,7 +594,7 @@ func orderPart(t *testing.T, r *vf.Run, st *orderStats, pt string, k int, jobSeq
 // spawnOrderWorkers runs the plan in n worker processes (this test binary re-executed with C03_ORDER_SHARD=i/n; synctest
 // bubbles do not run in parallel inside one process). The returned function waits for them and merges their results:
 // counters are summed, violations are classified in this process, outcome classes are united.
-func spawnOrderWorkers(r *vf.Run, st *orderStats, n int) (wait func()) {
+func spawnOrderWorkers(r *vf.Run, st *orderStats, sst *structStats, n int) (wait func()) {
 	dir, err := os.MkdirTemp("", "c03-order")
 	if err != nil {
 		r.EngineError(err.Error())
@@ -605,7 +634,8 @@ func spawnOrderWorkers(r *vf.Run, st *orderStats, n int) (wait func()) {
 			var res struct {
 				Cov struct {
 					Extra struct {
-						OrderStats *orderStats `json:"order_stats"`
+						OrderStats  *orderStats  `json:"order_stats"`
+						StructStats *structStats `json:"struct_stats"`
 					}
 				}
 				Viol      []vf.Violation
@@ -619,6 +649,11 @@ func spawnOrderWorkers(r *vf.Run, st *orderStats, n int) (wait func()) {
 				continue
 			}
 			st.add(res.Cov.Extra.OrderStats)
+			if res.Cov.Extra.StructStats != nil {
+				sst.add(res.Cov.Extra.StructStats)
+			} else {
+				r.EngineError(fmt.Sprintf("order worker %d: no counters of part 3 in its result", i))
+			}
 			for k, v := range res.Viol {
 				for c := 0; c < res.Counts[k]; c++ {
 					r.Report(v)
